@@ -193,8 +193,9 @@ IQN_CHARS = "abcdefghijklmnopqrstuvwxyz0123456789.-:"
 
 def gen_iscsi_name(rng, n=None):
     if n is None:
-        n = rng.choice([16, 17, 18, 19, 20, 21, 22, 23, 24, 31, 32, 33, 64, 100, 200, 223])
-    base = "iqn.2001-04.com."
+        n = rng.choice([13, 14, 15, 16, 16, 17, 18, 19, 20, 21, 22, 23, 24, 31, 32, 33, 64, 100, 200, 223])
+    # (the shortest names of the iqn. form have a one-label naming authority: iqn.2001-04.a)
+    base = "iqn.2001-04.com." if n > 16 else "iqn.2001-04."
     n = max(n, len(base) + 1)
     name = base + "".join(rng.choice(IQN_CHARS[:36]) for _ in range(n - len(base)))
     if rng.random() < 0.15 and n < 100:
